@@ -580,6 +580,7 @@ func (w *World) Reachable(start Node, skipSchemas bool) *Reach {
 			if h.Ref == "#" || h.Ref == "" {
 				// the containing document as a whole: such a reference is a cycle by construction
 				// (the document contains the holder) and is kept as it stands, never followed
+				r.Cyclic = true
 				continue
 			}
 			r.Holders = append(r.Holders, h)
